@@ -505,10 +505,10 @@ def cli(argv=None, mode='output'):
                     "You used option '-T' but did not pick a transformation.\n"
                 )
 
-        # Generate the formula and apply transformations
-        if hasattr(args, 'seed') and args.seed is not None:
-            random.seed(args.seed)
-
+        # Generate the formula and apply transformations (the random
+        # generator has been seeded when the option `--seed` was parsed:
+        # seeding it again would give the formula the very numbers its
+        # random graph arguments have been built with)
         try:
             cnf = args.generator.build_formula(args, formula_class=CNF)
         except (CLIError, ValueError) as e:
